@@ -6,7 +6,9 @@ import (
 	"fmt"
 	"io"
 	"strconv"
+	"strings"
 
+	"github.com/WICG/webpackage/go/bundle"
 	"github.com/WICG/webpackage/go/internal/cbor"
 )
 
@@ -144,5 +146,93 @@ func init() {
 			return "inputerr"
 		}
 		return fmt.Sprintf("ok %d", fw.writes)
+	})
+}
+
+// --- CountingWriter accounting (C04 / C19): sequences of Write / ReadFrom against three kinds of destination
+type cwPlain struct{ got int64 }
+
+func (p *cwPlain) Write(b []byte) (int, error) { p.got += int64(len(b)); return len(b), nil }
+
+type cwFailing struct {
+	room  int64
+	short bool
+	got   int64
+}
+
+func (f *cwFailing) Write(b []byte) (int, error) {
+	if int64(len(b)) <= f.room {
+		f.room -= int64(len(b))
+		f.got += int64(len(b))
+		return len(b), nil
+	}
+	if f.short {
+		n := f.room
+		f.room = 0
+		f.got += n
+		return int(n), errors.New("injected fault")
+	}
+	return 0, errors.New("injected fault")
+}
+
+// a source without WriteTo that hands out `chunk` bytes per Read
+type cwSource struct{ remaining, chunk int }
+
+func (s *cwSource) Read(p []byte) (int, error) {
+	if s.remaining == 0 {
+		return 0, io.EOF
+	}
+	n := s.chunk
+	if n > len(p) {
+		n = len(p)
+	}
+	if n > s.remaining {
+		n = s.remaining
+	}
+	s.remaining -= n
+	return n, nil
+}
+
+func init() {
+	register("cw.seq", func(args []string) string {
+		room, _ := strconv.ParseInt(args[1], 10, 64)
+		var dest io.Writer
+		var got func() int64
+		switch args[0] {
+		case "buf":
+			b := &bytes.Buffer{}
+			dest, got = b, func() int64 { return int64(b.Len()) }
+		case "plain":
+			p := &cwPlain{}
+			dest, got = p, func() int64 { return p.got }
+		case "short", "hard":
+			f := &cwFailing{room: room, short: args[0] == "short"}
+			dest, got = f, func() int64 { return f.got }
+		default:
+			panic("bad-op")
+		}
+		cw := bundle.NewCountingWriter(dest)
+		rets := []string{}
+		for _, o := range strings.Split(args[2], ",") {
+			var n int64
+			var err error
+			if o[0] == 'w' {
+				k, _ := strconv.Atoi(o[1:])
+				var m int
+				m, err = cw.Write(make([]byte, k))
+				n = int64(m)
+			} else {
+				p := strings.Split(o[1:], "/")
+				t, _ := strconv.Atoi(p[0])
+				c, _ := strconv.Atoi(p[1])
+				n, err = cw.ReadFrom(&cwSource{remaining: t, chunk: c})
+			}
+			e := "0"
+			if err != nil {
+				e = "1"
+			}
+			rets = append(rets, fmt.Sprintf("%d:%s", n, e))
+		}
+		return fmt.Sprintf("%d %d %s", cw.Written, got(), strings.Join(rets, ","))
 	})
 }
